@@ -4,10 +4,12 @@ import importlib, json, os, sys
 V = os.path.dirname(os.path.dirname(os.path.abspath(__file__)))
 sys.path.insert(0, os.path.join(V, 'props')); sys.path.insert(0, os.path.join(V, 'lib'))
 props = json.loads('[' + ','.join(l for l in open(os.path.join(V, 'properties.jsonl')) if l.strip()) + ']')
+# properties whose check has been integrated and validated on the unchanged tree by the coordinator
+CLAIMED = ['C01', 'C05', 'C07']
 checks, na = [], []
 for p in props:
     pid = p['id']
-    if os.path.exists(os.path.join(V, 'props', pid + '.py')):
+    if pid in CLAIMED and os.path.exists(os.path.join(V, 'props', pid + '.py')):
         m = importlib.import_module(pid)
         if getattr(m, 'CLAIMED', True):
             checks.append({
